@@ -125,6 +125,11 @@ pub fn run<T: Elt>(kind: &str, a: &mut Args, out: &mut Out) {
             let (n1, ni, nm, nf) = (mf.norm_1(), mf.norm_inf(), mf.norm_max(), mf.norm_frob());
             check_same(&m, &snap, "norms");
             out.f(n1); out.f(ni); out.f(nm); out.f(nf); }
+        // f64 * Matrix<f64> (the only scalar-on-the-left operator): owned form only; compared with matrix * scalar
+        "mat.scale_l" => { let m = a.m::<T>(); let x = a.f64();
+            let mf: Matrix<f64> = as_f64(&m).clone();
+            let r = x * mf.clone();
+            out.m(&r); out.m(&(mf * x)); }
         // norm_p(p) for a general exponent (libm powf: oracle only)
         "mat.norm_p" => { let m = a.m::<T>(); let p = a.f64(); out.f(as_f64(&m).norm_p(p)); }
         "mat.solve_basic" => { let mut m = a.m::<T>(); let b = a.v::<T>(); let bs = b.clone();
